@@ -71,6 +71,8 @@ type Sched struct {
 	// follows an operation is then a step of its own, so that a thread can be preempted between
 	// handing something over and what it does next with data the scheduler does not see.
 	PostYield bool
+	// Accesses counts access events (vacuity guard for harnesses that rely on the monitor).
+	Accesses int
 	// YieldFilter, if set, decides which Yield sites are scheduling points.
 	YieldFilter func(site string) bool
 
